@@ -8,14 +8,14 @@ PID = "C10"
 
 CLAIM = dict(
     text="Coq theorems over an executable model of wac_graph::plug (model/Plug.v, on top of the validated graph model "
-         "Graph.v and the semver-compatibility model Names.v): under the two stated hypotheses (the socket imports no two "
-         "names on one semver track; no plug exports two names on one track) the export-first algorithm of plug.rs "
-         "realises the property read import-first: after a successful plug every socket import with a supplier is an "
+         "Graph.v and the semver-compatibility model Names.v): under the stated hypothesis (the socket imports no two "
+         "names on one semver track) the export-first algorithm of plug.rs (with its per-import dedupe, exact name "
+         "preferred) realises the property read import-first: after a successful plug every socket import with a supplier is an "
          "argument of the socket instantiation fed by the alias of that plug's export, every other import is still "
          "listed as an import, every socket export is exported under its own name through an alias of the socket "
          "instantiation, idle plugs have no node, the only failure is ArgumentAlreadyPassed and it happens exactly when "
-         "two plugs offer for one import, NoPlugHappened exactly when nothing can be supplied, never a panic. Each "
-         "hypothesis has a machine-checked counterexample (_refuted), replayed on the real code. The model is tied to the "
+         "two plugs offer for one import, NoPlugHappened exactly when nothing can be supplied, never a panic. The "
+         "hypothesis has machine-checked counterexamples (_refuted), replayed on the real code. The model is tied to the "
          "code by comparing, for every generated socket/plug-list case, outcome class + underlying error variant and the "
          "full graph dump; the specification verdict is evaluated on the implementation's own observation, including the "
          "encoded component (validity, import and export names).",
@@ -29,9 +29,10 @@ CLAIM = dict(
 
 # Findings proposed to the main session (see the final report); consulted locally so that the check exits 0 on the
 # unchanged tree while still printing the KNOWN-FINDING lines.  Signature letters: what the driver prints in R=
-# (A: an import-first offer that the export-first loop does not route to that import -- needs two socket imports on one
-# semver track; B: an export-first pair that is not the import-first offer -- needs a plug with two exports on one track)
-# and C (encode: unsupplied same-track socket imports with unmergeable types).
+# (A: the pairs kept by the export-first loop differ from the import-first offers -- needs two socket imports on one
+# semver track, PlugProofs.pair_iff_offer) and C (encode: unsupplied same-track socket imports with unmergeable types).
+# The former finding B (`one-plug-two-exports-on-one-track`: one plug colliding with itself) was repaired by /repo commit
+# 7db12e7 and is recorded as fixed: its witness `C 2 5` stays in the corpus and a regression is a VIOLATION.
 W_HEAD = ("U reset\nU lib 0 imports=5:F0,6:F0 exports=20:F0\nU lib 1 imports=5:F1,6:F0 exports=20:F0\n"
           "U lib 2 imports=5:F0 exports=20:F0\nU lib 3 imports= exports=6:F0\nU lib 4 imports= exports=5:F0\n"
           "U lib 5 imports= exports=5:F0,6:F0\nU lib 6 imports= exports=25:F0\n"
@@ -44,12 +45,6 @@ PROPOSED_KNOWN = [
          text="socket imports a:b/c@0.2.0 and a:b/c@0.2.1: a plug exporting only a:b/c@0.2.1 leaves a:b/c@0.2.0 imported "
               "(C 0 3); an exact-name import of incompatible type shadows the compatible sibling -> NoPlugHappened (C 1 4); "
               "two plugs exporting one each are both wired by exact name although each also offers for the sibling (C 0 4 3)"),
-    dict(property=PID, id="one-plug-two-exports-on-one-track", status="known", letter="B",
-         signature="plug(): one plug exports two names on one semver track, both type-compatible with the same socket import: "
-                   "the exact-name pair and the semver-fallback pair collide -> GraphError(ArgumentAlreadyPassed) with a single plug",
-         witness=W_HEAD + "C 2 5\n",
-         text="socket imports a:b/c@0.2.0; ONE plug exporting a:b/c@0.2.0 and a:b/c@0.2.1 fails with ArgumentAlreadyPassed "
-              "instead of supplying the exact name"),
     dict(property=PID, id="unsupplied-same-track-imports-unmergeable", status="known", letter="C",
          signature="encode after a successful plug(): two unsupplied socket imports on one semver track with types the encoder "
                    "cannot merge -> EncodeError::ImportTypeMergeConflict",
